@@ -454,12 +454,17 @@ def read_raw(path, sp):
     return Samples(np.concatenate(gs), np.concatenate(vs))
 
 
-def reader_pass(top, sp, reader=None):
-    """(reader, samples) through DigitalRFReader: bounds, then read of the whole span"""
+def reader_pass(top, sp, reader=None, planned=False):
+    """(reader, samples) through DigitalRFReader: bounds, then read of the whole span.  planned=True: the
+    reader does not ask for the bounds but reads the whole planned span of the recording (first to last
+    sample of all write calls), i.e. also where nothing exists yet"""
     import digital_rf
     import numpy as np
     r = reader or digital_rf.DigitalRFReader(top)
-    b = r.get_bounds(CH)
+    if planned:
+        b = (sp["start"] + min(g0 for g0, _n in sp["writes"]), sp["start"] + max(g0 + n for g0, n in sp["writes"]) - 1)
+    else:
+        b = r.get_bounds(CH)
     if b[0] is None or b[1] is None:
         return r, Samples()
     blocks = r.read(b[0], b[1], CH)
